@@ -51,6 +51,8 @@ def declare(reg):
 
     reg.properties.setdefault("C08", {}).setdefault("bounded", []).append(
         {"name": "parser-totality-fuzz", "module": "harness.parser", "func": "Totality"})
+    reg.properties.setdefault("C08", {}).setdefault("bounded", []).append(
+        {"name": "parser-terminates", "module": "harness.parser", "func": "Terminates"})
 
     # ---- _p_string (C08): quoted-string escapes are decoded; literals are taken by octet count -----------------------------
     QRE = r'''r'"([^\r\n\\"]|\\["\\])*"' '''.strip()
